@@ -15,10 +15,10 @@ variable {F : Type} [PyF F]
 /-- number of loop iterations `calculate` performs for the node named `name` -/
 def loopCount (name : String) (cs : List (Candle F)) : Nat := cs.length - findCalcIndex name cs
 
-/-- **One reading per appended candle.**  With at least two finished candles, appending one fresh
+/-- **One reading per appended candle.**  With at least one finished candle, appending one fresh
 candle makes the loop run exactly once – independently of how long the history is. -/
 theorem one_reading_per_append (name : String) (done : List (Candle F)) (c : Candle F)
-    (hdone : ∀ d ∈ done, hasKey name d = true) (hc : hasKey name c = false) (h2 : 2 ≤ done.length) :
+    (hdone : ∀ d ∈ done, hasKey name d = true) (hc : hasKey name c = false) (h2 : 1 ≤ done.length) :
     findCalcIndex name (done ++ [c]) = done.length ∧ loopCount name (done ++ [c]) = 1 := by
   have h := findCalcIndex_resume name done [c] ⟨hdone, by simpa using hc⟩ h2
   exact ⟨h, by simp [loopCount, h]⟩
@@ -26,7 +26,7 @@ theorem one_reading_per_append (name : String) (done : List (Candle F)) (c : Can
 /-- **k fresh candles, k readings.** -/
 theorem k_readings_for_k_candles (name : String) (done fresh : List (Candle F))
     (hdone : ∀ d ∈ done, hasKey name d = true) (hf : ∀ c ∈ fresh, hasKey name c = false)
-    (h2 : 2 ≤ done.length) : loopCount name (done ++ fresh) = fresh.length := by
+    (h2 : 1 ≤ done.length) : loopCount name (done ++ fresh) = fresh.length := by
   have h := findCalcIndex_resume name done fresh ⟨hdone, hf⟩ h2
   simp [loopCount, h]
 
@@ -37,7 +37,7 @@ theorem merge_clears_keys (a b : Candle F) (name : String) : hasKey name (a.merg
 
 /-- **No work on a complete list.** -/
 theorem no_work_when_complete (name : String) (cs : List (Candle F))
-    (h : ∀ d ∈ cs, hasKey name d = true) (h2 : 2 ≤ cs.length) : loopCount name cs = 0 := by
+    (h : ∀ d ∈ cs, hasKey name d = true) (h2 : 1 ≤ cs.length) : loopCount name cs = 0 := by
   have := findCalcIndex_resume name cs [] ⟨h, by simp⟩ h2
   simp only [List.append_nil] at this
   simp [loopCount, this]
